@@ -52,8 +52,8 @@ fn version_meta(vs: &[u64]) -> RowDatasetVersionMeta {
 // ---------------------------------------------------------------- transpose
 pub fn run_transpose(args: &Args, sink: &mut Sink, rng: &mut Rng) {
     let mut s = Stream::new("transpose", REQ_C, "chk_transpose", "list N * list (N * N) * list (N * N)", "outcome (list (N * option N))");
-    s.shard = 150;
-    let n = args.vol(400, 4000);
+    s.shard = 100;
+    let n = args.vol(200, 4000);
     for case in 0..n {
         // old fragments: ids ascending (as plan_compaction hands them over), rarely not
         let nf = rng.range(1, 4) as usize;
@@ -184,8 +184,8 @@ fn live_rows_of(f: &Fragment, deleted: &[u64]) -> Vec<LiveRow> {
 
 pub fn run_build(args: &Args, sink: &mut Sink, rng: &mut Rng) {
     let mut sb = Stream::new("build", REQ, "chk_build", "option Manifest * Operation * (bool * option fver)", "outcome Manifest");
-    sb.shard = 100;
-    let n = args.vol(300, 4000);
+    sb.shard = 40;
+    let n = args.vol(120, 4000);
     for case in 0..n {
         let mut ctx = Ctx::default();
         let stable = rng.chance(1, 2);
